@@ -71,3 +71,26 @@ CONTRACTS[M + "add_notes"] = dict(
     split=[{"field_types": {"self.notes": a, "notes.notes": b}} for a in SIZES[:2] for b in SIZES], split_is_domain=True,
     notes="domain: receiver holding 0 or 1 notes, argument holding 0, 1 or 2 notes, arbitrary pitches and spellings",
     properties=["C12", "C13", "C15"], battery="nc_merge")
+
+# removal: by name removes that name in every octave, with an octave only that one, by Note every note of that pitch;
+# everything else stays, in order, as the same objects
+_KEEP_NAME = "(n.name != note or (octave != -1 and n.octave != octave))"
+SIZES4 = SIZES + ["[Note,Note,Note]"]
+CONTRACTS[M + "remove_note"] = dict(
+    params={"self": "NoteContainer", "note": "str", "octave": "int"},
+    requires=[("valid-names", "all([is_name(n.name) for n in self.notes])")],
+    old={"old_notes": "[n for n in self.notes]"},
+    returns="list[any]",
+    ensures=[("returns-its-own-note-list", "same_object(result, self.notes)"),
+             ("keeps-exactly-the-others-in-order",
+              "list_same(self.notes, [n for n in old_notes if %s])" % _KEEP_NAME)],
+    modifies=["param:self"],
+    split=[{"field_types": {"self.notes": sz}} for sz in SIZES4], split_is_domain=True,
+    variants=[dict(
+        name="by-note", params={"self": "NoteContainer", "note": "Note", "octave": "int"},
+        requires=[("valid-names", "all([is_name(n.name) for n in self.notes]) and is_name(note.name)")],
+        ensures=[("returns-its-own-note-list", "same_object(result, self.notes)"),
+                 ("keeps-exactly-the-notes-of-other-pitch-in-order",
+                  "list_same(self.notes, [n for n in old_notes if pitch(n) != pitch(note)])")])],
+    notes="domain: containers of 0..3 notes with arbitrary names, octaves and order",
+    properties=["C12"], battery="nc_remove")
